@@ -147,9 +147,10 @@ def clock_env(epoch):
 
 
 def run(argv, cwd, cfg=None, tz="UTC", nobody=False, extra_env=None, cpu=CPU_LIMIT_S,
-        wall=WALL_LIMIT_S, stdin=None, clock=None):
-    """Run fselect with argv (list of str); returns Res. Never raises for fselect's own failures."""
-    cmd = [BINARY] + list(argv)
+        wall=WALL_LIMIT_S, stdin=None, clock=None, wrap=None):
+    """Run fselect with argv (list of str); returns Res. Never raises for fselect's own failures.
+    wrap: command prefix that ends by exec-ing its remaining arguments (e.g. unshare -m sh -c '<mounts>; exec "$@"' sh)."""
+    cmd = list(wrap or []) + [BINARY] + list(argv)
     if nobody:
         cmd = ["setpriv", "--reuid", "65534", "--regid", "65534", "--clear-groups"] + cmd
     env = base_env(cfg, tz, extra_env)
